@@ -395,7 +395,34 @@ func ruleTxPairing(c *Ctx) {
 		c.touch(f)
 		isUnlock := func(in ssa.Instruction) bool {
 			cc := callOf(in)
-			return cc != nil && calleeIs(cc, modPath, "Tx", "unlock") && sameValue(cc.Args[0], f.Params[0])
+			if cc == nil || len(cc.Args) == 0 {
+				return false
+			}
+			if calleeIs(cc, modPath, "Tx", "unlock") && sameValue(cc.Args[0], f.Params[0]) {
+				return true
+			}
+			// a wrapper of this transaction that unlocks exactly once on every path (e.g. unlock + clear tx.db)
+			if cal := cc.StaticCallee(); cal != nil && cal != f && c.P.inModule(cal) && cal.Blocks != nil && sameValue(cc.Args[0], f.Params[0]) && len(cal.Params) > 0 {
+				inner := func(in ssa.Instruction) bool {
+					ic := callOf(in)
+					return ic != nil && calleeIs(ic, modPath, "Tx", "unlock") && len(ic.Args) > 0 && sameValue(ic.Args[0], cal.Params[0])
+				}
+				anyRet := func(in ssa.Instruction) bool { _, ok := in.(*ssa.Return); return ok }
+				hasUnlock := false
+				twice := false
+				instrs(cal, func(in ssa.Instruction) {
+					if inner(in) {
+						hasUnlock = true
+						if findPath(cal, in, inner, nil, nil) != nil {
+							twice = true
+						}
+					}
+				})
+				if hasUnlock && !twice && findPath(cal, nil, anyRet, inner, nil) == nil {
+					return true
+				}
+			}
+			return false
 		}
 		succRet := func(in ssa.Instruction) bool {
 			r, ok := in.(*ssa.Return)
